@@ -18,7 +18,12 @@ AddGroup == \E g \in Groups(st) \cup {0} : DepthOf(st, g) < MAXDEPTH /\
 TopLeaves(N) == {n.id : n \in {m \in NodeSet(N) : m.parent = 0 /\ ~m.grp}}
 AddGroupOf == \E ids \in SUBSET TopLeaves(st) :
              Do([op |-> "groupOf", parent |-> 0, x |-> 0, y |-> 0, cx |-> 0, cy |-> 0, ids |-> ids])
-Next == AddLeaf \/ AddGroup \/ AddGroupOf
+\* one member is moved / resized through its setters (at most once per history): the groups around it are out of date until an addition obliges them
+Leaves(N) == {n.id : n \in {m \in NodeSet(N) : ~m.grp}}
+NMoves == Cardinality({i \in DOMAIN hist : hist[i].op = "move"})
+Move == NMoves = 0 /\ \E l \in Leaves(st) : \E b \in 1..NBOX : BoxOf(st[l]) # Boxes[b] /\
+             Do([op |-> "move", parent |-> 0, id |-> l, x |-> Boxes[b].x, y |-> Boxes[b].y, cx |-> Boxes[b].cx, cy |-> Boxes[b].cy, ids |-> {}])
+Next == AddLeaf \/ AddGroup \/ AddGroupOf \/ Move
 Spec == Init /\ [][Next]_<<st, hist>>
 ViewSt == st
 Refines == [][GrpFailing(st, hist'[Len(hist')], st') = {}]_<<st, hist>>
